@@ -2,3 +2,2108 @@
 //! thread, driven over its command `Channel`, with scripted raw TCP/UDP
 //! clients and backends. (Owned by the rig builder; see DESIGN.md §1 "trace
 //! validation".)
+//!
+//! Only public sozu API is used (the same calls as `e2e/src/sozu/worker.rs`);
+//! nothing here needs `--cfg sozu_verif`.
+//!
+//! # Quick tour
+//!
+//! ```ignore
+//! use verif_harness::rig::*;
+//! use std::time::Duration;
+//!
+//! let mut w = Worker::start(WorkerOpts::default())?;       // ~1-3 ms
+//! let front = w.add_http_listener()?;                       // reserved port, added + activated
+//! let be = MockBackend::listen()?;                          // 127.0.0.1:<kernel-chosen>
+//! w.add_http_route(front, "localhost", "/", "c0", be.addr, false)?;
+//!
+//! let mut c = RawConn::connect(front)?;
+//! c.write_all(b"GET / HTTP/1.1\r\nHost: localhost\r\n\r\n", T)?;
+//! let mut b = be.accept(T)?;                                // RawConn, same primitives
+//! b.read_until(b"\r\n\r\n", T);                             // everything received is in b.received
+//! b.write_all(b"HTTP/1.1 200 OK\r\nContent-Length: 2\r\n\r\nok", T)?;
+//! let resp = read_http_message(&mut c, T)?;                 // minimal H1 reader
+//!
+//! match w.alive() { Health::Alive(_) => {}, h => /* wedged or dead: report, start a fresh one */ }
+//! w.stop();                                                 // HardStop + join (bounded); leaks the thread if it does not exit
+//! ```
+//!
+//! # Pieces
+//!
+//! * [`WorkerOpts`]: `buffer_size`, `min/max_buffers`, `max_connections`,
+//!   `max_connections_per_ip`, `front/back/connect/request_timeout` (seconds),
+//!   `zombie_check_interval`, `accept_queue_timeout`, `evict_on_queue_full`,
+//!   `slab_entries_per_connection`, `request_deadline` (default deadline of
+//!   [`Worker::request`]), `log_file`/`log_level` (debugging only), and `tweak`
+//!   (last-minute edit of the `ServerConfig`).
+//! * [`Worker`]: `start`, `request` (final answer, whatever its status; skips
+//!   `PROCESSING`), `request_ok` (FAILURE → `Err`), `send`/`recv` (raw, for
+//!   response-accounting checks), `alive`/`alive_within` (watchdog),
+//!   `stop`/`soft_stop`, listener helpers (`add_http_listener`,
+//!   `add_https_listener`, `add_tcp_listener`, `add_udp_listener`, `*_with`
+//!   variants taking a closure over `ListenerBuilder`, `activate`,
+//!   `deactivate`, `remove_listener`), `add_cluster` ([`cluster`] builds a
+//!   default `Cluster`; set `proxy_protocol`, `load_balancing`, `http2`…),
+//!   `add_http_frontend`/`add_https_frontend`/`add_tcp_frontend`/
+//!   `add_udp_frontend`, `add_backend`/`remove_backend`, `add_certificate`,
+//!   one-call routes `add_tcp_route`, `add_http_route`, `add_https_route`.
+//! * Addresses: [`reserve_tcp`]/[`reserve_udp`] bind `127.0.0.1:0` with
+//!   `SO_REUSEPORT` and **keep the socket** (bound, never
+//!   listening), so the kernel cannot hand the port to anybody else while sozu
+//!   (whose `server_bind` also sets `SO_REUSEPORT`) binds the same address.
+//!   Race-free across threads and processes. The `Worker` keeps TCP
+//!   reservations until it is dropped (so deactivate/re-activate is safe);
+//!   UDP reservations are released once the listener is activated (a bound
+//!   UDP socket in the reuseport group would steal datagrams).
+//!   [`dead_addr`] gives an address that refuses connections.
+//! * Scripted peers: [`RawConn`] (client side: `connect`/`connect_with`;
+//!   backend side: [`MockBackend::accept`]) with `write_all`, `write_chunks`,
+//!   `read_some`, `read_until`, `read_until_len`, `read_until_closed_or`,
+//!   `read_until_quiet`, `shutdown_write`, `close`, `reset` (RST). Every
+//!   byte received is appended to `conn.received`, every byte sent counted in
+//!   `conn.sent`. [`ConnOpts`] has `rcvbuf`/`sndbuf`/`nodelay`. For payloads
+//!   that exceed the socket buffers run one side in a thread:
+//!   [`run_script`]/[`spawn_script`] with [`Step`]s, or
+//!   [`MockBackend::serve`] (one script per accepted connection).
+//!   [`UdpPeer`] is the datagram counterpart. [`read_http_message`] is a
+//!   minimal H1 reader (Content-Length / chunked / until-close) that advances
+//!   `conn.parsed` and leaves `conn.received` intact. [`tls_connect`] gives a
+//!   rustls client stream (any certificate accepted, chosen SNI and ALPN) for
+//!   HTTPS listeners; [`asset`] reads the PEM files of `/repo/lib/assets`.
+//! * [`poll_until`] polls a condition every millisecond with a deadline.
+//! * All blocking calls take a timeout; nothing in here can block for ever.
+//!
+//! # Measured (release build, idle 16-core box)
+//!
+//! `Worker::start` 0.5–3 ms, listener + cluster + frontend + backend ≈ 0.3 ms,
+//! one proxied GET ≈ 0.3 ms, `stop()` 0.3–0.5 ms, `alive()` ≈ 0.1 ms; a full
+//! start/route/GET/stop cycle ≈ 2–4 ms. A wedged worker costs `alive_within`'s
+//! deadline (+ ≤ 100 ms: the channel checks its deadline every 100 ms) and
+//! `stop_within`'s deadline + 1 s.
+//!
+//! # Hazards (confirmed on the real code, DESIGN §6)
+//!
+//! * F13: a TCP cluster with `proxy_protocol = RelayHeader` wedges the worker
+//!   on the first connection: `alive()` returns `Wedged`, `stop()` reports
+//!   `Leaked` and the thread keeps **spinning on one core until the process
+//!   exits**. Replay that witness at most once per process (or last).
+//! * F23: a TCP cluster with `proxy_protocol = ExpectHeader` panics the worker
+//!   thread on the first connection: `alive()` returns `Dead(Some(msg))`.
+//!   Call [`silence_worker_panics`] once if the default panic message on
+//!   stderr is unwanted.
+//! * Use one worker per risky mode and check `alive()` after each case.
+//! * HardStop does not close live sessions (a worker *process* would just
+//!   exit). In a thread their sockets stay open in leaked `Rc` cycles: about 3
+//!   fds per session that was still open at `stop()`. Close the scripted peers
+//!   and wait for sozu to close its side (`read_until_closed_or`) before
+//!   stopping when a run starts thousands of workers (`ulimit -n` is 20000).
+//! * SoftStop kills TCP sessions at once (`TcpSession::shutting_down` is
+//!   `true`); only HTTP sessions with a request in flight delay it.
+//! * A listener port is free again only when the `Worker` is dropped/stopped;
+//!   every listener and every `MockBackend` costs one kernel-chosen port of
+//!   the ephemeral range (28k ports, 60 s TIME_WAIT): reuse workers and
+//!   listeners across cases where the property allows it.
+//! * An HTTP request head larger than `buffer_size` is not refused at once:
+//!   sozu answers 408 when the listener's `request_timeout` (default 10 s)
+//!   expires. Set `request_timeout: Some(1)` when exercising that.
+//! * The sozu logger is thread-local; the worker thread calls
+//!   `quiet_logs()`, and so does `Worker::start` for the calling thread
+//!   (`ListenerBuilder::to_tls` logs a warning from the caller's thread).
+//! * Metrics need no set-up: `METRICS`/`QUEUE`/`TIMER` are thread-locals with
+//!   defaults, so several workers coexist in one process.
+
+use std::collections::HashMap;
+use std::io::{self, Read};
+use std::net::{Shutdown, SocketAddr, TcpListener, TcpStream, UdpSocket};
+use std::os::unix::io::{AsRawFd, FromRawFd, IntoRawFd, RawFd};
+use std::panic::{catch_unwind, AssertUnwindSafe};
+use std::sync::atomic::{AtomicU64, Ordering};
+use std::sync::{mpsc, Arc, Mutex};
+use std::thread::{self, JoinHandle};
+use std::time::{Duration, Instant};
+
+use sozu_command_lib::channel::{Channel, ChannelError};
+use sozu_command_lib::config::{Config, ConfigBuilder, FileConfig, ListenerBuilder};
+use sozu_command_lib::proto::command::{
+    request::RequestType, ActivateListener, AddBackend, AddCertificate, CertificateAndKey,
+    Cluster, DeactivateListener, HardStop, HttpListenerConfig, HttpsListenerConfig, ListenerType,
+    LoadBalancingParams, PathRule, ProxyProtocolConfig, RemoveBackend, RemoveListener, Request,
+    RequestHttpFrontend, RequestTcpFrontend, RequestUdpFrontend, ResponseStatus, RulePosition,
+    ServerConfig, SoftStop, Status, TcpListenerConfig, UdpListenerConfig, WorkerRequest,
+    WorkerResponse,
+};
+use sozu_command_lib::scm_socket::{Listeners, ScmSocket};
+use sozu_command_lib::state::ConfigState;
+use sozu_lib::server::Server;
+
+// ------------------------------------------------------------------ errors
+
+#[derive(Debug, Clone, PartialEq, Eq)]
+pub enum RigError {
+    /// no (final) answer within the deadline
+    Timeout(String),
+    /// the command channel is closed: the worker thread exited or panicked
+    WorkerGone(String),
+    /// the worker answered FAILURE (only from `request_ok` and the helpers)
+    Failure(String),
+    /// any other channel error
+    Channel(String),
+    /// socket-level error of a scripted peer
+    Io(String),
+    /// could not build a configuration / start the worker
+    Setup(String),
+}
+
+impl std::fmt::Display for RigError {
+    fn fmt(&self, f: &mut std::fmt::Formatter<'_>) -> std::fmt::Result {
+        write!(f, "{self:?}")
+    }
+}
+impl std::error::Error for RigError {}
+
+impl From<io::Error> for RigError {
+    fn from(e: io::Error) -> Self {
+        RigError::Io(format!("{:?}: {e}", e.kind()))
+    }
+}
+
+pub type RigResult<T> = Result<T, RigError>;
+
+// ----------------------------------------------------- address reservation
+
+/// A bound (never listening / never read) socket on `127.0.0.1:<port>` that
+/// keeps `<port>` out of the kernel's hands while sozu binds the same address.
+#[derive(Debug)]
+pub struct Reservation {
+    pub addr: SocketAddr,
+    fd: RawFd,
+}
+
+impl Drop for Reservation {
+    fn drop(&mut self) {
+        unsafe {
+            libc::close(self.fd);
+        }
+    }
+}
+
+fn setsockopt_int(fd: RawFd, level: i32, name: i32, val: i32) -> io::Result<()> {
+    let r = unsafe {
+        libc::setsockopt(
+            fd,
+            level,
+            name,
+            &val as *const i32 as *const libc::c_void,
+            std::mem::size_of::<i32>() as libc::socklen_t,
+        )
+    };
+    if r != 0 {
+        Err(io::Error::last_os_error())
+    } else {
+        Ok(())
+    }
+}
+
+fn sockaddr_v4(addr: SocketAddr) -> io::Result<libc::sockaddr_in> {
+    match addr {
+        SocketAddr::V4(a) => Ok(libc::sockaddr_in {
+            sin_family: libc::AF_INET as libc::sa_family_t,
+            sin_port: a.port().to_be(),
+            sin_addr: libc::in_addr { s_addr: u32::from(*a.ip()).to_be() },
+            sin_zero: [0; 8],
+        }),
+        SocketAddr::V6(_) => Err(io::Error::new(io::ErrorKind::Unsupported, "rig: IPv4 only")),
+    }
+}
+
+fn local_addr_of(fd: RawFd) -> io::Result<SocketAddr> {
+    let mut sa: libc::sockaddr_in = unsafe { std::mem::zeroed() };
+    let mut len = std::mem::size_of::<libc::sockaddr_in>() as libc::socklen_t;
+    let r = unsafe { libc::getsockname(fd, &mut sa as *mut _ as *mut libc::sockaddr, &mut len) };
+    if r != 0 {
+        return Err(io::Error::last_os_error());
+    }
+    let ip = std::net::Ipv4Addr::from(u32::from_be(sa.sin_addr.s_addr));
+    Ok(SocketAddr::from((ip, u16::from_be(sa.sin_port))))
+}
+
+fn reserve(kind: i32) -> io::Result<Reservation> {
+    let fd = unsafe { libc::socket(libc::AF_INET, kind | libc::SOCK_CLOEXEC, 0) };
+    if fd < 0 {
+        return Err(io::Error::last_os_error());
+    }
+    let res = (|| {
+        // SO_REUSEPORT only: sozu's listener (REUSEADDR + REUSEPORT, same uid) may
+        // share the port, a plain `TcpListener::bind` (REUSEADDR only) may not
+        setsockopt_int(fd, libc::SOL_SOCKET, libc::SO_REUSEPORT, 1)?;
+        let sa = sockaddr_v4(SocketAddr::from(([127, 0, 0, 1], 0)))?;
+        let r = unsafe {
+            libc::bind(
+                fd,
+                &sa as *const _ as *const libc::sockaddr,
+                std::mem::size_of::<libc::sockaddr_in>() as libc::socklen_t,
+            )
+        };
+        if r != 0 {
+            return Err(io::Error::last_os_error());
+        }
+        local_addr_of(fd)
+    })();
+    match res {
+        Ok(addr) => Ok(Reservation { addr, fd }),
+        Err(e) => {
+            unsafe { libc::close(fd) };
+            Err(e)
+        }
+    }
+}
+
+/// Reserve a fresh `127.0.0.1:port` for a TCP/HTTP/HTTPS listener of sozu.
+pub fn reserve_tcp() -> io::Result<Reservation> {
+    reserve(libc::SOCK_STREAM)
+}
+
+/// Reserve a fresh `127.0.0.1:port` for a UDP listener of sozu. Drop it as
+/// soon as sozu has bound (a bound UDP socket shares incoming datagrams).
+pub fn reserve_udp() -> io::Result<Reservation> {
+    reserve(libc::SOCK_DGRAM)
+}
+
+/// An address nobody listens on (connections are refused) for as long as the
+/// returned reservation lives.
+pub fn dead_addr() -> io::Result<Reservation> {
+    reserve_tcp()
+}
+
+/// Poll `cond` every millisecond until it holds or `timeout` elapsed; returns
+/// whether it held.
+pub fn poll_until(timeout: Duration, mut cond: impl FnMut() -> bool) -> bool {
+    let until = Instant::now() + timeout;
+    loop {
+        if cond() {
+            return true;
+        }
+        if Instant::now() >= until {
+            return false;
+        }
+        thread::sleep(Duration::from_millis(1));
+    }
+}
+
+// ---------------------------------------------------------------- options
+
+pub struct WorkerOpts {
+    pub name: Option<String>,
+    pub buffer_size: Option<u64>,
+    pub min_buffers: Option<u64>,
+    pub max_buffers: Option<u64>,
+    pub max_connections: Option<usize>,
+    pub max_connections_per_ip: Option<u64>,
+    pub slab_entries_per_connection: Option<u64>,
+    /// seconds
+    pub front_timeout: Option<u32>,
+    /// seconds
+    pub back_timeout: Option<u32>,
+    /// seconds
+    pub connect_timeout: Option<u32>,
+    /// seconds (HTTP/HTTPS listeners)
+    pub request_timeout: Option<u32>,
+    /// seconds
+    pub zombie_check_interval: Option<u32>,
+    /// seconds
+    pub accept_queue_timeout: Option<u32>,
+    pub evict_on_queue_full: Option<bool>,
+    /// default deadline of `Worker::request` (2 s)
+    pub request_deadline: Duration,
+    /// write the worker's log to this file (debugging); default: discarded
+    pub log_file: Option<String>,
+    pub log_level: String,
+    /// last edit of the `ServerConfig` handed to the worker
+    pub tweak: Option<Box<dyn FnOnce(&mut ServerConfig) + Send>>,
+}
+
+impl Default for WorkerOpts {
+    fn default() -> Self {
+        WorkerOpts {
+            name: None,
+            buffer_size: None,
+            min_buffers: None,
+            max_buffers: None,
+            max_connections: None,
+            max_connections_per_ip: None,
+            slab_entries_per_connection: None,
+            front_timeout: None,
+            back_timeout: None,
+            connect_timeout: None,
+            request_timeout: None,
+            zombie_check_interval: None,
+            accept_queue_timeout: None,
+            evict_on_queue_full: None,
+            request_deadline: Duration::from_secs(2),
+            log_file: None,
+            log_level: "debug".into(),
+            tweak: None,
+        }
+    }
+}
+
+// ----------------------------------------------------------------- worker
+
+#[derive(Debug, Clone, PartialEq, Eq)]
+pub enum Health {
+    /// answered `Status` within the deadline (round-trip time)
+    Alive(Duration),
+    /// thread still running but no answer within the deadline
+    Wedged,
+    /// thread exited; `Some(msg)` when it panicked
+    Dead(Option<String>),
+}
+
+impl Health {
+    pub fn is_alive(&self) -> bool {
+        matches!(self, Health::Alive(_))
+    }
+}
+
+#[derive(Debug, Clone, PartialEq, Eq)]
+pub enum StopOutcome {
+    /// the thread returned from `Server::run`
+    Clean,
+    /// the thread had panicked (message)
+    Panicked(String),
+    /// the thread did not exit in time and was abandoned (still running)
+    Leaked,
+}
+
+#[derive(Debug, Clone)]
+pub struct StopReport {
+    pub outcome: StopOutcome,
+    pub elapsed: Duration,
+}
+
+#[derive(Default)]
+struct ExitInfo {
+    /// None while running; Some(None) clean exit; Some(Some(msg)) panic / start failure
+    state: Mutex<Option<Option<String>>>,
+}
+
+static WORKER_SEQ: AtomicU64 = AtomicU64::new(0);
+
+pub struct Worker {
+    pub name: String,
+    /// the sozu `Config` the listener builders take their default timeouts from
+    pub config: Config,
+    pub server_config: ServerConfig,
+    /// default deadline of `request`
+    pub request_deadline: Duration,
+    /// answers that did not belong to the request being waited for
+    pub stray: Vec<WorkerResponse>,
+    /// `PROCESSING` notices seen so far
+    pub notices: Vec<WorkerResponse>,
+    /// time `start` took
+    pub startup: Duration,
+    channel: Option<Channel<WorkerRequest, WorkerResponse>>,
+    scm_main_fd: RawFd,
+    scm_worker_fd: RawFd,
+    thread: Option<JoinHandle<()>>,
+    exit: Arc<ExitInfo>,
+    next_id: u64,
+    reservations: HashMap<SocketAddr, Reservation>,
+    stopped: Option<StopReport>,
+}
+
+fn panic_message(e: Box<dyn std::any::Any + Send>) -> String {
+    if let Some(s) = e.downcast_ref::<&str>() {
+        s.to_string()
+    } else if let Some(s) = e.downcast_ref::<String>() {
+        s.clone()
+    } else {
+        "panic".into()
+    }
+}
+
+/// Install (once) a panic hook that prints nothing for rig worker threads and
+/// behaves as before for every other thread. The panic message is still
+/// available through `Worker::alive()` / `stop()`.
+pub fn silence_worker_panics() {
+    static ONCE: std::sync::Once = std::sync::Once::new();
+    ONCE.call_once(|| {
+        let prev = std::panic::take_hook();
+        std::panic::set_hook(Box::new(move |info| {
+            let is_worker = thread::current()
+                .name()
+                .map(|n| n.starts_with("rig-worker"))
+                .unwrap_or(false);
+            if !is_worker {
+                prev(info);
+            }
+        }));
+    });
+}
+
+/// `verif_harness::quiet_logs()` for the current thread, without the three
+/// lines `Logger::init` prints on stdout each time: fd 1 points to /dev/null
+/// while it runs. The stdout lock is held meanwhile, so `println!`s of other
+/// threads wait instead of getting lost.
+pub fn quiet_logs_silently() {
+    use std::io::Write;
+    let mut out = io::stdout().lock();
+    let _ = out.flush();
+    unsafe {
+        let saved = libc::dup(1);
+        let null = libc::open(b"/dev/null\0".as_ptr() as *const libc::c_char, libc::O_WRONLY);
+        if saved >= 0 && null >= 0 {
+            libc::dup2(null, 1);
+            crate::quiet_logs();
+            let _ = out.flush();
+            libc::dup2(saved, 1);
+        } else {
+            crate::quiet_logs();
+        }
+        if saved >= 0 {
+            libc::close(saved);
+        }
+        if null >= 0 {
+            libc::close(null);
+        }
+    }
+}
+
+/// A default cluster (round robin, no sticky session, no proxy protocol, H1
+/// backends). Set `proxy_protocol: Some(ProxyProtocolConfig::SendHeader as i32)`,
+/// `http2: Some(true)`, `load_balancing: LoadBalancingAlgorithms::… as i32` as needed.
+pub fn cluster(id: &str) -> Cluster {
+    Cluster {
+        cluster_id: id.to_string(),
+        sticky_session: false,
+        https_redirect: false,
+        ..Default::default()
+    }
+}
+
+/// Where the PEM assets live (`$VERIF_REPO/lib/assets`, default `/repo/lib/assets`).
+pub fn asset(name: &str) -> RigResult<String> {
+    let repo = std::env::var("VERIF_REPO").unwrap_or_else(|_| "/repo".into());
+    let p = format!("{repo}/lib/assets/{name}");
+    std::fs::read_to_string(&p).map_err(|e| RigError::Setup(format!("{p}: {e}")))
+}
+
+impl Worker {
+    /// Start a real worker in a thread of this process.
+    pub fn start(opts: WorkerOpts) -> RigResult<Worker> {
+        let t0 = Instant::now();
+        quiet_logs_silently();
+        let seq = WORKER_SEQ.fetch_add(1, Ordering::SeqCst);
+        let name = opts.name.clone().unwrap_or_else(|| format!("rig-worker-{seq}"));
+
+        let file_config = FileConfig {
+            buffer_size: opts.buffer_size,
+            min_buffers: opts.min_buffers,
+            max_buffers: opts.max_buffers,
+            max_connections: opts.max_connections,
+            max_connections_per_ip: opts.max_connections_per_ip,
+            slab_entries_per_connection: opts.slab_entries_per_connection,
+            front_timeout: opts.front_timeout,
+            back_timeout: opts.back_timeout,
+            connect_timeout: opts.connect_timeout,
+            request_timeout: opts.request_timeout,
+            zombie_check_interval: opts.zombie_check_interval,
+            accept_queue_timeout: opts.accept_queue_timeout,
+            evict_on_queue_full: opts.evict_on_queue_full,
+            ..FileConfig::default()
+        };
+        let config = ConfigBuilder::new(file_config, "")
+            .into_config()
+            .map_err(|e| RigError::Setup(format!("into_config: {e}")))?;
+        let mut server_config = ServerConfig::from(&config);
+        if let Some(tweak) = opts.tweak {
+            tweak(&mut server_config);
+        }
+
+        let (cmd_main, cmd_worker): (
+            Channel<WorkerRequest, WorkerResponse>,
+            Channel<WorkerResponse, WorkerRequest>,
+        ) = Channel::generate(
+            server_config.command_buffer_size,
+            server_config.max_command_buffer_size,
+        )
+        .map_err(|e| RigError::Setup(format!("Channel::generate: {e}")))?;
+        // a wedged worker must not be able to block our writes for ever
+        set_timeout_opt(cmd_main.fd(), libc::SO_SNDTIMEO, Duration::from_secs(1));
+
+        let (scm_a, scm_b) = std::os::unix::net::UnixStream::pair()?;
+        let scm_main_fd = scm_a.into_raw_fd();
+        let scm_worker_fd = scm_b.into_raw_fd();
+        let scm_main = ScmSocket::new(scm_main_fd)
+            .map_err(|e| RigError::Setup(format!("ScmSocket::new: {e}")))?;
+        let scm_worker = ScmSocket::new(scm_worker_fd)
+            .map_err(|e| RigError::Setup(format!("ScmSocket::new: {e}")))?;
+        scm_main
+            .send_listeners(&Listeners::default())
+            .map_err(|e| RigError::Setup(format!("send_listeners: {e}")))?;
+
+        let exit = Arc::new(ExitInfo::default());
+        let exit_t = exit.clone();
+        let (ready_tx, ready_rx) = mpsc::channel::<Result<(), String>>();
+        let thread_config = server_config.clone();
+        let log_file = opts.log_file.clone();
+        let log_level = opts.log_level.clone();
+        let tag = name.clone();
+        let thread_name = if name.starts_with("rig-worker") {
+            name.clone()
+        } else {
+            format!("rig-worker-{name}")
+        };
+        let thread = thread::Builder::new()
+            .name(thread_name)
+            .stack_size(8 << 20)
+            .spawn(move || {
+                match &log_file {
+                    Some(path) => {
+                        let _ = sozu_command_lib::logging::setup_logging(
+                            &format!("file://{path}"),
+                            false,
+                            None,
+                            None,
+                            None,
+                            &log_level,
+                            &tag,
+                        );
+                    }
+                    None => quiet_logs_silently(),
+                }
+                let result = catch_unwind(AssertUnwindSafe(|| {
+                    let initial_state = ConfigState::new().produce_initial_state();
+                    match Server::try_new_from_config(
+                        cmd_worker,
+                        scm_worker,
+                        thread_config,
+                        initial_state,
+                        false,
+                    ) {
+                        Ok(mut server) => {
+                            let _ = ready_tx.send(Ok(()));
+                            server.run();
+                            None
+                        }
+                        Err(e) => {
+                            let msg = format!("try_new_from_config: {e}");
+                            let _ = ready_tx.send(Err(msg.clone()));
+                            Some(msg)
+                        }
+                    }
+                }));
+                let state = match result {
+                    Ok(r) => r,
+                    Err(p) => Some(panic_message(p)),
+                };
+                *exit_t.state.lock().unwrap_or_else(|e| e.into_inner()) = Some(state);
+            })
+            .map_err(|e| RigError::Setup(format!("spawn: {e}")))?;
+
+        let mut worker = Worker {
+            name,
+            config,
+            server_config,
+            request_deadline: opts.request_deadline,
+            stray: vec![],
+            notices: vec![],
+            startup: Duration::ZERO,
+            channel: Some(cmd_main),
+            scm_main_fd,
+            scm_worker_fd,
+            thread: Some(thread),
+            exit,
+            next_id: 0,
+            reservations: HashMap::new(),
+            stopped: None,
+        };
+        match ready_rx.recv_timeout(Duration::from_secs(10)) {
+            Ok(Ok(())) => {}
+            Ok(Err(msg)) => {
+                worker.stop();
+                return Err(RigError::Setup(msg));
+            }
+            Err(_) => {
+                let rep = worker.stop();
+                return Err(RigError::Setup(format!(
+                    "worker did not come up in 10 s ({:?})",
+                    rep.outcome
+                )));
+            }
+        }
+        worker.startup = t0.elapsed();
+        Ok(worker)
+    }
+
+    // -------------------------------------------------- command channel --
+
+    fn fresh_id(&mut self) -> String {
+        self.next_id += 1;
+        format!("RIG-{}", self.next_id)
+    }
+
+    /// Send a request without waiting; returns its id.
+    pub fn send(&mut self, request: RequestType) -> RigResult<String> {
+        let id = self.fresh_id();
+        self.send_raw(WorkerRequest {
+            id: id.clone(),
+            content: Request { request_type: Some(request) },
+        })?;
+        Ok(id)
+    }
+
+    /// Send an arbitrary `WorkerRequest` (own id, possibly `request_type: None`).
+    pub fn send_raw(&mut self, request: WorkerRequest) -> RigResult<()> {
+        let ch = self
+            .channel
+            .as_mut()
+            .ok_or_else(|| RigError::WorkerGone("worker stopped".into()))?;
+        ch.write_message(&request).map_err(map_channel_error)
+    }
+
+    /// Next response of any kind (including `PROCESSING`), within `timeout`.
+    pub fn recv(&mut self, timeout: Duration) -> RigResult<WorkerResponse> {
+        let ch = self
+            .channel
+            .as_mut()
+            .ok_or_else(|| RigError::WorkerGone("worker stopped".into()))?;
+        // `read_message_blocking_timeout(Some(0))` would not even look at the socket
+        let timeout = timeout.max(Duration::from_millis(1));
+        ch.read_message_blocking_timeout(Some(timeout)).map_err(map_channel_error)
+    }
+
+    /// Wait for the final (non-`PROCESSING`) response carrying `id`.
+    pub fn wait_for(&mut self, id: &str, timeout: Duration) -> RigResult<WorkerResponse> {
+        let deadline = Instant::now() + timeout;
+        loop {
+            let left = deadline.saturating_duration_since(Instant::now());
+            if left.is_zero() {
+                return Err(RigError::Timeout(format!("no final answer to {id} in {timeout:?}")));
+            }
+            let response = match self.recv(left) {
+                Ok(r) => r,
+                Err(RigError::Timeout(_)) => {
+                    return Err(RigError::Timeout(format!(
+                        "no final answer to {id} in {timeout:?}"
+                    )))
+                }
+                Err(e) => return Err(e),
+            };
+            if response.status == ResponseStatus::Processing as i32 {
+                self.notices.push(response);
+                continue;
+            }
+            if response.id == id {
+                return Ok(response);
+            }
+            self.stray.push(response);
+        }
+    }
+
+    /// Round trip with the default deadline: the final answer (OK **or** FAILURE).
+    pub fn request(&mut self, request: RequestType) -> RigResult<WorkerResponse> {
+        let d = self.request_deadline;
+        self.request_within(request, d)
+    }
+
+    pub fn request_within(
+        &mut self,
+        request: RequestType,
+        timeout: Duration,
+    ) -> RigResult<WorkerResponse> {
+        let id = self.send(request)?;
+        self.wait_for(&id, timeout)
+    }
+
+    /// Like `request`, but a FAILURE answer becomes `Err(RigError::Failure(message))`.
+    pub fn request_ok(&mut self, request: RequestType) -> RigResult<WorkerResponse> {
+        let r = self.request(request)?;
+        if r.status == ResponseStatus::Ok as i32 {
+            Ok(r)
+        } else {
+            Err(RigError::Failure(r.message))
+        }
+    }
+
+    // ----------------------------------------------------------- watchdog --
+
+    /// `Some(None)`: exited cleanly, `Some(Some(msg))`: panicked, `None`: running.
+    pub fn exit_state(&self) -> Option<Option<String>> {
+        let finished = self.thread.as_ref().map(|t| t.is_finished()).unwrap_or(true);
+        let st = self.exit.state.lock().unwrap_or_else(|e| e.into_inner()).clone();
+        match (finished, st) {
+            (_, Some(s)) => Some(s),
+            (true, None) => Some(None),
+            (false, None) => None,
+        }
+    }
+
+    /// Watchdog with the default deadline.
+    pub fn alive(&mut self) -> Health {
+        let d = self.request_deadline;
+        self.alive_within(d)
+    }
+
+    /// A `Status` round trip with a deadline. Never blocks longer than
+    /// `timeout` (+ a few ms).
+    pub fn alive_within(&mut self, timeout: Duration) -> Health {
+        if let Some(st) = self.exit_state() {
+            return Health::Dead(st);
+        }
+        let t0 = Instant::now();
+        match self.request_within(RequestType::Status(Status {}), timeout) {
+            Ok(_) => Health::Alive(t0.elapsed()),
+            Err(RigError::Timeout(_)) => match self.exit_state() {
+                Some(st) => Health::Dead(st),
+                None => Health::Wedged,
+            },
+            Err(_) => {
+                // channel closed: give the thread a moment to record its exit
+                let until = Instant::now() + Duration::from_millis(500);
+                loop {
+                    if let Some(st) = self.exit_state() {
+                        return Health::Dead(st);
+                    }
+                    if Instant::now() >= until {
+                        return Health::Dead(None);
+                    }
+                    thread::sleep(Duration::from_millis(1));
+                }
+            }
+        }
+    }
+
+    // --------------------------------------------------------------- stop --
+
+    fn join_within(&mut self, timeout: Duration) -> bool {
+        let until = Instant::now() + timeout;
+        loop {
+            match &self.thread {
+                None => return true,
+                Some(t) if t.is_finished() => {
+                    let t = self.thread.take().unwrap();
+                    let _ = t.join();
+                    return true;
+                }
+                Some(_) => {}
+            }
+            if Instant::now() >= until {
+                return false;
+            }
+            thread::sleep(Duration::from_micros(200));
+        }
+    }
+
+    /// HardStop, then join with a bound (2 s + 1 s after closing the channel).
+    /// If the thread still does not exit it is abandoned (`Leaked`): it keeps
+    /// its sockets and, when it is spinning, one core. Idempotent.
+    pub fn stop(&mut self) -> StopReport {
+        self.stop_within(Duration::from_secs(2))
+    }
+
+    pub fn stop_within(&mut self, timeout: Duration) -> StopReport {
+        if let Some(r) = &self.stopped {
+            return r.clone();
+        }
+        let t0 = Instant::now();
+        if self.exit_state().is_none() {
+            let _ = self.send(RequestType::HardStop(HardStop {}));
+        }
+        let mut joined = self.join_within(timeout);
+        // closing our end makes a polling worker return ("command channel was closed")
+        self.channel = None;
+        if !joined {
+            joined = self.join_within(Duration::from_secs(1));
+        }
+        unsafe {
+            libc::close(self.scm_main_fd);
+        }
+        let outcome = if joined {
+            // the Server is gone: its copy of the scm fd is ours to close
+            unsafe {
+                libc::close(self.scm_worker_fd);
+            }
+            match self.exit.state.lock().unwrap_or_else(|e| e.into_inner()).clone() {
+                Some(Some(msg)) => StopOutcome::Panicked(msg),
+                _ => StopOutcome::Clean,
+            }
+        } else {
+            // detach: dropping a JoinHandle does not block
+            self.thread = None;
+            StopOutcome::Leaked
+        };
+        self.reservations.clear();
+        let rep = StopReport { outcome, elapsed: t0.elapsed() };
+        self.stopped = Some(rep.clone());
+        rep
+    }
+
+    /// SoftStop: returns the final answer (sent when the last session is
+    /// gone) and joins the thread. `Err(Timeout)` when sessions are still open
+    /// after `timeout`; the worker is then still running (call `stop()`).
+    pub fn soft_stop(&mut self, timeout: Duration) -> RigResult<WorkerResponse> {
+        let t0 = Instant::now();
+        let r = self.request_within(RequestType::SoftStop(SoftStop {}), timeout)?;
+        let left = timeout.saturating_sub(t0.elapsed()).max(Duration::from_millis(200));
+        if self.join_within(left) {
+            self.stop();
+        }
+        Ok(r)
+    }
+
+    // ---------------------------------------------------------- listeners --
+
+    /// Reserve a fresh TCP address owned by this worker (kept until drop).
+    pub fn reserve_addr(&mut self) -> RigResult<SocketAddr> {
+        let r = reserve_tcp()?;
+        let a = r.addr;
+        self.reservations.insert(a, r);
+        Ok(a)
+    }
+
+    pub fn activate(&mut self, addr: SocketAddr, proxy: ListenerType) -> RigResult<()> {
+        self.request_ok(RequestType::ActivateListener(ActivateListener {
+            address: addr.into(),
+            proxy: proxy.into(),
+            from_scm: false,
+        }))
+        .map(|_| ())
+    }
+
+    pub fn deactivate(&mut self, addr: SocketAddr, proxy: ListenerType) -> RigResult<()> {
+        self.request_ok(RequestType::DeactivateListener(DeactivateListener {
+            address: addr.into(),
+            proxy: proxy.into(),
+            to_scm: false,
+        }))
+        .map(|_| ())
+    }
+
+    pub fn remove_listener(&mut self, addr: SocketAddr, proxy: ListenerType) -> RigResult<()> {
+        self.request_ok(RequestType::RemoveListener(RemoveListener {
+            address: addr.into(),
+            proxy: proxy.into(),
+        }))
+        .map(|_| ())
+    }
+
+    /// HTTP listener on a fresh address with the worker's timeouts; added and activated.
+    pub fn add_http_listener(&mut self) -> RigResult<SocketAddr> {
+        self.add_http_listener_with(|_| {}, |_| {})
+    }
+
+    /// `build` edits the `ListenerBuilder` (`with_expect_proxy(true)`, timeouts…),
+    /// `edit` the resulting `HttpListenerConfig` (h2 knobs…).
+    pub fn add_http_listener_with(
+        &mut self,
+        build: impl FnOnce(&mut ListenerBuilder),
+        edit: impl FnOnce(&mut HttpListenerConfig),
+    ) -> RigResult<SocketAddr> {
+        let addr = self.reserve_addr()?;
+        let mut b = ListenerBuilder::new_http(addr.into());
+        build(&mut b);
+        let mut cfg = b
+            .to_http(Some(&self.config))
+            .map_err(|e| RigError::Setup(format!("to_http: {e}")))?;
+        edit(&mut cfg);
+        self.request_ok(RequestType::AddHttpListener(cfg))?;
+        self.activate(addr, ListenerType::Http)?;
+        Ok(addr)
+    }
+
+    /// HTTPS listener (default ALPN `h2`, `http/1.1`) on a fresh address, added
+    /// and activated, **without** a certificate: see `add_certificate` /
+    /// `add_https_route`.
+    pub fn add_https_listener(&mut self) -> RigResult<SocketAddr> {
+        self.add_https_listener_with(|_| {}, |_| {})
+    }
+
+    pub fn add_https_listener_with(
+        &mut self,
+        build: impl FnOnce(&mut ListenerBuilder),
+        edit: impl FnOnce(&mut HttpsListenerConfig),
+    ) -> RigResult<SocketAddr> {
+        let addr = self.reserve_addr()?;
+        let mut b = ListenerBuilder::new_https(addr.into());
+        build(&mut b);
+        let mut cfg = b
+            .to_tls(Some(&self.config))
+            .map_err(|e| RigError::Setup(format!("to_tls: {e}")))?;
+        edit(&mut cfg);
+        self.request_ok(RequestType::AddHttpsListener(cfg))?;
+        self.activate(addr, ListenerType::Https)?;
+        Ok(addr)
+    }
+
+    pub fn add_tcp_listener(&mut self) -> RigResult<SocketAddr> {
+        self.add_tcp_listener_with(|_| {}, |_| {})
+    }
+
+    pub fn add_tcp_listener_with(
+        &mut self,
+        build: impl FnOnce(&mut ListenerBuilder),
+        edit: impl FnOnce(&mut TcpListenerConfig),
+    ) -> RigResult<SocketAddr> {
+        let addr = self.reserve_addr()?;
+        let mut b = ListenerBuilder::new_tcp(addr.into());
+        build(&mut b);
+        let mut cfg = b
+            .to_tcp(Some(&self.config))
+            .map_err(|e| RigError::Setup(format!("to_tcp: {e}")))?;
+        edit(&mut cfg);
+        self.request_ok(RequestType::AddTcpListener(cfg))?;
+        self.activate(addr, ListenerType::Tcp)?;
+        Ok(addr)
+    }
+
+    pub fn add_udp_listener(&mut self) -> RigResult<SocketAddr> {
+        self.add_udp_listener_with(|_| {}, |_| {})
+    }
+
+    pub fn add_udp_listener_with(
+        &mut self,
+        build: impl FnOnce(&mut ListenerBuilder),
+        edit: impl FnOnce(&mut UdpListenerConfig),
+    ) -> RigResult<SocketAddr> {
+        let reservation = reserve_udp()?;
+        let addr = reservation.addr;
+        let mut b = ListenerBuilder::new_udp(addr.into());
+        build(&mut b);
+        let mut cfg = b
+            .to_udp(Some(&self.config))
+            .map_err(|e| RigError::Setup(format!("to_udp: {e}")))?;
+        edit(&mut cfg);
+        self.request_ok(RequestType::AddUdpListener(cfg))?;
+        self.activate(addr, ListenerType::Udp)?;
+        drop(reservation); // sozu holds the port now; ours would steal datagrams
+        Ok(addr)
+    }
+
+    // ----------------------------------------- clusters, fronts, backends --
+
+    pub fn add_cluster(&mut self, cluster: Cluster) -> RigResult<()> {
+        self.request_ok(RequestType::AddCluster(cluster)).map(|_| ())
+    }
+
+    pub fn remove_cluster(&mut self, cluster_id: &str) -> RigResult<()> {
+        self.request_ok(RequestType::RemoveCluster(cluster_id.to_string())).map(|_| ())
+    }
+
+    /// PREFIX path rule in the TREE position, any method.
+    pub fn http_frontend(
+        listener: SocketAddr,
+        hostname: &str,
+        path_prefix: &str,
+        cluster_id: &str,
+    ) -> RequestHttpFrontend {
+        RequestHttpFrontend {
+            cluster_id: Some(cluster_id.to_string()),
+            address: listener.into(),
+            hostname: hostname.to_string(),
+            path: PathRule::prefix(path_prefix.to_string()),
+            position: RulePosition::Tree.into(),
+            ..Default::default()
+        }
+    }
+
+    pub fn add_http_frontend(
+        &mut self,
+        listener: SocketAddr,
+        hostname: &str,
+        path_prefix: &str,
+        cluster_id: &str,
+    ) -> RigResult<()> {
+        let f = Self::http_frontend(listener, hostname, path_prefix, cluster_id);
+        self.request_ok(RequestType::AddHttpFrontend(f)).map(|_| ())
+    }
+
+    pub fn add_https_frontend(
+        &mut self,
+        listener: SocketAddr,
+        hostname: &str,
+        path_prefix: &str,
+        cluster_id: &str,
+    ) -> RigResult<()> {
+        let f = Self::http_frontend(listener, hostname, path_prefix, cluster_id);
+        self.request_ok(RequestType::AddHttpsFrontend(f)).map(|_| ())
+    }
+
+    pub fn add_tcp_frontend(&mut self, listener: SocketAddr, cluster_id: &str) -> RigResult<()> {
+        self.request_ok(RequestType::AddTcpFrontend(RequestTcpFrontend {
+            cluster_id: cluster_id.to_string(),
+            address: listener.into(),
+            ..Default::default()
+        }))
+        .map(|_| ())
+    }
+
+    pub fn add_udp_frontend(&mut self, listener: SocketAddr, cluster_id: &str) -> RigResult<()> {
+        self.request_ok(RequestType::AddUdpFrontend(RequestUdpFrontend {
+            cluster_id: cluster_id.to_string(),
+            address: listener.into(),
+            ..Default::default()
+        }))
+        .map(|_| ())
+    }
+
+    pub fn add_backend(
+        &mut self,
+        cluster_id: &str,
+        backend_id: &str,
+        addr: SocketAddr,
+    ) -> RigResult<()> {
+        self.request_ok(RequestType::AddBackend(AddBackend {
+            cluster_id: cluster_id.to_string(),
+            backend_id: backend_id.to_string(),
+            address: addr.into(),
+            load_balancing_parameters: Some(LoadBalancingParams::default()),
+            sticky_id: None,
+            backup: None,
+        }))
+        .map(|_| ())
+    }
+
+    pub fn remove_backend(
+        &mut self,
+        cluster_id: &str,
+        backend_id: &str,
+        addr: SocketAddr,
+    ) -> RigResult<()> {
+        self.request_ok(RequestType::RemoveBackend(RemoveBackend {
+            cluster_id: cluster_id.to_string(),
+            backend_id: backend_id.to_string(),
+            address: addr.into(),
+        }))
+        .map(|_| ())
+    }
+
+    pub fn add_certificate(
+        &mut self,
+        listener: SocketAddr,
+        certificate_pem: String,
+        key_pem: String,
+        names: Vec<String>,
+    ) -> RigResult<()> {
+        self.request_ok(RequestType::AddCertificate(AddCertificate {
+            address: listener.into(),
+            certificate: CertificateAndKey {
+                certificate: certificate_pem,
+                key: key_pem,
+                certificate_chain: vec![],
+                versions: vec![],
+                names,
+            },
+            expired_at: None,
+        }))
+        .map(|_| ())
+    }
+
+    // ------------------------------------------------------------- routes --
+
+    /// AddCluster(`cluster_id`, `proxy_protocol`) + AddTcpFrontend + AddBackend
+    /// (`<cluster_id>-0`). Beware: `RelayHeader` wedges (F13) and
+    /// `ExpectHeader` panics (F23) the worker on the first connection.
+    pub fn add_tcp_route(
+        &mut self,
+        listener: SocketAddr,
+        cluster_id: &str,
+        backend: SocketAddr,
+        proxy_protocol: Option<ProxyProtocolConfig>,
+    ) -> RigResult<()> {
+        let mut c = cluster(cluster_id);
+        c.proxy_protocol = proxy_protocol.map(|p| p as i32);
+        self.add_cluster(c)?;
+        self.add_tcp_frontend(listener, cluster_id)?;
+        self.add_backend(cluster_id, &format!("{cluster_id}-0"), backend)
+    }
+
+    /// AddCluster(`cluster_id`, `http2 = h2_backend`) + AddHttpFrontend(host,
+    /// PREFIX path) + AddBackend(`<cluster_id>-0`).
+    pub fn add_http_route(
+        &mut self,
+        listener: SocketAddr,
+        hostname: &str,
+        path_prefix: &str,
+        cluster_id: &str,
+        backend: SocketAddr,
+        h2_backend: bool,
+    ) -> RigResult<()> {
+        let mut c = cluster(cluster_id);
+        if h2_backend {
+            c.http2 = Some(true);
+        }
+        self.add_cluster(c)?;
+        self.add_http_frontend(listener, hostname, path_prefix, cluster_id)?;
+        self.add_backend(cluster_id, &format!("{cluster_id}-0"), backend)
+    }
+
+    /// Same on an HTTPS listener, and loads `local-certificate.pem` /
+    /// `local-key.pem` (CN/SAN `localhost`) from the repository's assets.
+    pub fn add_https_route(
+        &mut self,
+        listener: SocketAddr,
+        hostname: &str,
+        path_prefix: &str,
+        cluster_id: &str,
+        backend: SocketAddr,
+        h2_backend: bool,
+    ) -> RigResult<()> {
+        let mut c = cluster(cluster_id);
+        if h2_backend {
+            c.http2 = Some(true);
+        }
+        self.add_cluster(c)?;
+        self.add_https_frontend(listener, hostname, path_prefix, cluster_id)?;
+        self.add_certificate(
+            listener,
+            asset("local-certificate.pem")?,
+            asset("local-key.pem")?,
+            vec![],
+        )?;
+        self.add_backend(cluster_id, &format!("{cluster_id}-0"), backend)
+    }
+}
+
+impl Drop for Worker {
+    fn drop(&mut self) {
+        if self.stopped.is_none() {
+            self.stop_within(Duration::from_millis(1000));
+        }
+    }
+}
+
+fn map_channel_error(e: ChannelError) -> RigError {
+    match e {
+        ChannelError::TimeoutReached(d) => RigError::Timeout(format!("{d:?}")),
+        ChannelError::NoByteToRead | ChannelError::NoByteWritten => {
+            RigError::WorkerGone(e.to_string())
+        }
+        ChannelError::Read(ref io) | ChannelError::Write(ref io)
+            if matches!(
+                io.kind(),
+                io::ErrorKind::BrokenPipe
+                    | io::ErrorKind::ConnectionReset
+                    | io::ErrorKind::UnexpectedEof
+            ) =>
+        {
+            RigError::WorkerGone(e.to_string())
+        }
+        other => RigError::Channel(other.to_string()),
+    }
+}
+
+fn set_timeout_opt(fd: RawFd, opt: i32, d: Duration) {
+    let tv = libc::timeval {
+        tv_sec: d.as_secs() as libc::time_t,
+        tv_usec: d.subsec_micros() as libc::suseconds_t,
+    };
+    unsafe {
+        libc::setsockopt(
+            fd,
+            libc::SOL_SOCKET,
+            opt,
+            &tv as *const _ as *const libc::c_void,
+            std::mem::size_of::<libc::timeval>() as libc::socklen_t,
+        );
+    }
+}
+
+// ------------------------------------------------------------ raw sockets
+
+/// `poll(2)` one fd; `Ok(revents)` (0 on timeout).
+fn poll_fd(fd: RawFd, events: i16, timeout: Duration) -> io::Result<i16> {
+    let mut p = libc::pollfd { fd, events, revents: 0 };
+    let until = Instant::now() + timeout;
+    loop {
+        let left = until.saturating_duration_since(Instant::now());
+        // round up so that a 300 µs remainder is not a busy loop
+        let ms = ((left.as_micros() + 999) / 1000).min(i32::MAX as u128) as i32;
+        let r = unsafe { libc::poll(&mut p, 1, ms) };
+        if r < 0 {
+            let e = io::Error::last_os_error();
+            if e.kind() == io::ErrorKind::Interrupted {
+                continue;
+            }
+            return Err(e);
+        }
+        return Ok(if r == 0 { 0 } else { p.revents });
+    }
+}
+
+#[derive(Debug, Clone, Copy)]
+pub struct ConnOpts {
+    /// `SO_RCVBUF` set before connect/listen (the kernel doubles it; minimum ≈ 2304)
+    pub rcvbuf: Option<usize>,
+    pub sndbuf: Option<usize>,
+    /// `TCP_NODELAY` (default true: one `write` per chunk reaches the wire as such)
+    pub nodelay: bool,
+    pub connect_timeout: Duration,
+}
+
+impl Default for ConnOpts {
+    fn default() -> Self {
+        ConnOpts {
+            rcvbuf: None,
+            sndbuf: None,
+            nodelay: true,
+            connect_timeout: Duration::from_secs(2),
+        }
+    }
+}
+
+/// How a bounded read ended.
+#[derive(Debug, Clone, Copy, PartialEq, Eq)]
+pub enum ReadEnd {
+    /// the condition asked for was met
+    Done,
+    /// orderly end of stream (FIN)
+    Closed,
+    /// connection reset / other socket error
+    Reset,
+    /// deadline reached first
+    Timeout,
+}
+
+/// One TCP connection of a scripted peer (client, or a connection accepted by
+/// a [`MockBackend`]). Blocking socket + `poll(2)` deadlines.
+#[derive(Debug)]
+pub struct RawConn {
+    pub stream: TcpStream,
+    /// every byte read so far
+    pub received: Vec<u8>,
+    /// how much of `received` `read_http_message` has consumed
+    pub parsed: usize,
+    /// number of bytes written so far
+    pub sent: usize,
+    /// FIN seen
+    pub eof: bool,
+    /// reset or other read/write error seen
+    pub error: Option<io::ErrorKind>,
+}
+
+impl RawConn {
+    pub fn connect(addr: SocketAddr) -> RigResult<RawConn> {
+        Self::connect_with(addr, ConnOpts::default())
+    }
+
+    pub fn connect_with(addr: SocketAddr, opts: ConnOpts) -> RigResult<RawConn> {
+        let fd = unsafe {
+            libc::socket(
+                libc::AF_INET,
+                libc::SOCK_STREAM | libc::SOCK_CLOEXEC | libc::SOCK_NONBLOCK,
+                0,
+            )
+        };
+        if fd < 0 {
+            return Err(io::Error::last_os_error().into());
+        }
+        // from here on the fd is owned by `stream`
+        let stream = unsafe { TcpStream::from_raw_fd(fd) };
+        if let Some(n) = opts.rcvbuf {
+            setsockopt_int(fd, libc::SOL_SOCKET, libc::SO_RCVBUF, n as i32)?;
+        }
+        if let Some(n) = opts.sndbuf {
+            setsockopt_int(fd, libc::SOL_SOCKET, libc::SO_SNDBUF, n as i32)?;
+        }
+        let sa = sockaddr_v4(addr)?;
+        let r = unsafe {
+            libc::connect(
+                fd,
+                &sa as *const _ as *const libc::sockaddr,
+                std::mem::size_of::<libc::sockaddr_in>() as libc::socklen_t,
+            )
+        };
+        if r != 0 {
+            let e = io::Error::last_os_error();
+            if e.raw_os_error() != Some(libc::EINPROGRESS) {
+                return Err(e.into());
+            }
+            let rev = poll_fd(fd, libc::POLLOUT, opts.connect_timeout)?;
+            if rev == 0 {
+                return Err(RigError::Timeout(format!("connect {addr}")));
+            }
+            if let Some(e) = stream.take_error()? {
+                return Err(e.into());
+            }
+        }
+        stream.set_nonblocking(false)?;
+        if opts.nodelay {
+            stream.set_nodelay(true)?;
+        }
+        Ok(RawConn::from_stream(stream))
+    }
+
+    pub fn from_stream(stream: TcpStream) -> RawConn {
+        RawConn { stream, received: vec![], parsed: 0, sent: 0, eof: false, error: None }
+    }
+
+    pub fn local_addr(&self) -> Option<SocketAddr> {
+        self.stream.local_addr().ok()
+    }
+
+    pub fn peer_addr(&self) -> Option<SocketAddr> {
+        self.stream.peer_addr().ok()
+    }
+
+    /// Write all of `data` (may take several `write`s when the peer is slow).
+    /// On timeout/error the number of bytes that did go out is in `self.sent`.
+    pub fn write_all(&mut self, data: &[u8], timeout: Duration) -> RigResult<()> {
+        let until = Instant::now() + timeout;
+        let mut off = 0;
+        while off < data.len() {
+            let left = until.saturating_duration_since(Instant::now());
+            let rev = poll_fd(self.stream.as_raw_fd(), libc::POLLOUT, left)?;
+            if rev == 0 {
+                return Err(RigError::Timeout(format!(
+                    "write: {off} of {} bytes written",
+                    data.len()
+                )));
+            }
+            // MSG_DONTWAIT: only what fits now, so the deadline stays in force;
+            // MSG_NOSIGNAL: EPIPE instead of SIGPIPE
+            let n = unsafe {
+                libc::send(
+                    self.stream.as_raw_fd(),
+                    data[off..].as_ptr() as *const libc::c_void,
+                    data.len() - off,
+                    libc::MSG_DONTWAIT | libc::MSG_NOSIGNAL,
+                )
+            };
+            if n < 0 {
+                let e = io::Error::last_os_error();
+                match e.kind() {
+                    io::ErrorKind::WouldBlock | io::ErrorKind::Interrupted => continue,
+                    k => {
+                        self.error = Some(k);
+                        return Err(e.into());
+                    }
+                }
+            }
+            off += n as usize;
+            self.sent += n as usize;
+        }
+        Ok(())
+    }
+
+    /// One `write_all` per chunk (one segment each with `TCP_NODELAY`, as far
+    /// as the kernel allows), `pause` between chunks (zero = none). `timeout`
+    /// bounds the whole call.
+    pub fn write_chunks(
+        &mut self,
+        chunks: &[&[u8]],
+        pause: Duration,
+        timeout: Duration,
+    ) -> RigResult<()> {
+        let until = Instant::now() + timeout;
+        for (i, c) in chunks.iter().enumerate() {
+            if i > 0 && !pause.is_zero() {
+                thread::sleep(pause);
+            }
+            let left = until.saturating_duration_since(Instant::now());
+            self.write_all(c, left)?;
+        }
+        Ok(())
+    }
+
+    /// One bounded `read` of at most `max` bytes: `Done` = got some bytes.
+    pub fn read_some_max(&mut self, max: usize, timeout: Duration) -> ReadEnd {
+        if self.eof {
+            return ReadEnd::Closed;
+        }
+        if self.error.is_some() {
+            return ReadEnd::Reset;
+        }
+        let rev = match poll_fd(self.stream.as_raw_fd(), libc::POLLIN, timeout) {
+            Ok(r) => r,
+            Err(e) => {
+                self.error = Some(e.kind());
+                return ReadEnd::Reset;
+            }
+        };
+        if rev == 0 {
+            return ReadEnd::Timeout;
+        }
+        let mut buf = vec![0u8; max.clamp(1, 1 << 16)];
+        loop {
+            match self.stream.read(&mut buf) {
+                Ok(0) => {
+                    self.eof = true;
+                    return ReadEnd::Closed;
+                }
+                Ok(n) => {
+                    self.received.extend_from_slice(&buf[..n]);
+                    return ReadEnd::Done;
+                }
+                Err(e) if e.kind() == io::ErrorKind::Interrupted => continue,
+                Err(e) if e.kind() == io::ErrorKind::WouldBlock => return ReadEnd::Timeout,
+                Err(e) => {
+                    self.error = Some(e.kind());
+                    return ReadEnd::Reset;
+                }
+            }
+        }
+    }
+
+    pub fn read_some(&mut self, timeout: Duration) -> ReadEnd {
+        self.read_some_max(1 << 16, timeout)
+    }
+
+    /// Read until `cond(&self.received)` holds (checked first, then after every read).
+    pub fn read_while(
+        &mut self,
+        mut cond_met: impl FnMut(&[u8]) -> bool,
+        timeout: Duration,
+    ) -> ReadEnd {
+        let until = Instant::now() + timeout;
+        loop {
+            if cond_met(&self.received) {
+                return ReadEnd::Done;
+            }
+            let left = until.saturating_duration_since(Instant::now());
+            if left.is_zero() {
+                return ReadEnd::Timeout;
+            }
+            match self.read_some(left) {
+                ReadEnd::Done => {}
+                other => {
+                    return if cond_met(&self.received) { ReadEnd::Done } else { other };
+                }
+            }
+        }
+    }
+
+    /// Read until `pattern` occurs in everything received so far.
+    pub fn read_until(&mut self, pattern: &[u8], timeout: Duration) -> ReadEnd {
+        let mut from = 0usize;
+        let plen = pattern.len();
+        self.read_while(
+            |buf| {
+                let start = from.saturating_sub(plen.saturating_sub(1));
+                let hit = find(&buf[start..], pattern).is_some();
+                from = buf.len();
+                hit
+            },
+            timeout,
+        )
+    }
+
+    /// Read until at least `total` bytes have been received in all.
+    pub fn read_until_len(&mut self, total: usize, timeout: Duration) -> ReadEnd {
+        self.read_while(|buf| buf.len() >= total, timeout)
+    }
+
+    /// Read until the peer closes (`Closed`/`Reset`) or the deadline (`Timeout`).
+    pub fn read_until_closed_or(&mut self, timeout: Duration) -> ReadEnd {
+        self.read_while(|_| false, timeout)
+    }
+
+    /// Read until nothing arrived for `quiet` (→ `Done`), the peer closed, or `timeout`.
+    pub fn read_until_quiet(&mut self, quiet: Duration, timeout: Duration) -> ReadEnd {
+        let until = Instant::now() + timeout;
+        loop {
+            let left = until.saturating_duration_since(Instant::now());
+            if left.is_zero() {
+                return ReadEnd::Timeout;
+            }
+            match self.read_some(quiet.min(left)) {
+                ReadEnd::Done => {}
+                ReadEnd::Timeout => {
+                    return if left <= quiet { ReadEnd::Timeout } else { ReadEnd::Done }
+                }
+                other => return other,
+            }
+        }
+    }
+
+    /// Take (and forget) everything received so far.
+    pub fn take_received(&mut self) -> Vec<u8> {
+        self.parsed = 0;
+        std::mem::take(&mut self.received)
+    }
+
+    /// The received bytes `read_http_message` has not consumed yet.
+    pub fn unparsed(&self) -> &[u8] {
+        &self.received[self.parsed.min(self.received.len())..]
+    }
+
+    /// Half-close: FIN after the bytes already written.
+    pub fn shutdown_write(&mut self) {
+        let _ = self.stream.shutdown(Shutdown::Write);
+    }
+
+    /// Orderly close (FIN; RST if unread data is pending, as the kernel does).
+    pub fn close(self) {
+        drop(self)
+    }
+
+    /// Abortive close: `SO_LINGER {on, 0}` then close → the peer sees RST.
+    pub fn reset(self) {
+        let l = libc::linger { l_onoff: 1, l_linger: 0 };
+        unsafe {
+            libc::setsockopt(
+                self.stream.as_raw_fd(),
+                libc::SOL_SOCKET,
+                libc::SO_LINGER,
+                &l as *const _ as *const libc::c_void,
+                std::mem::size_of::<libc::linger>() as libc::socklen_t,
+            );
+        }
+        drop(self)
+    }
+}
+
+/// First occurrence of `needle` in `hay`.
+pub fn find(hay: &[u8], needle: &[u8]) -> Option<usize> {
+    if needle.is_empty() {
+        return Some(0);
+    }
+    if hay.len() < needle.len() {
+        return None;
+    }
+    hay.windows(needle.len()).position(|w| w == needle)
+}
+
+// ----------------------------------------------------------- mock backend
+
+/// A listening socket on `127.0.0.1:<kernel-chosen port>`; accepted
+/// connections are [`RawConn`]s driven by the caller (or by scripts).
+#[derive(Debug)]
+pub struct MockBackend {
+    pub addr: SocketAddr,
+    listener: TcpListener,
+    nodelay: bool,
+}
+
+impl MockBackend {
+    pub fn listen() -> RigResult<MockBackend> {
+        Self::listen_with(ConnOpts::default())
+    }
+
+    /// `rcvbuf`/`sndbuf` are set on the listening socket and inherited by the
+    /// accepted ones (the only way to get a small receive window from the
+    /// first segment on).
+    pub fn listen_with(opts: ConnOpts) -> RigResult<MockBackend> {
+        let fd = unsafe { libc::socket(libc::AF_INET, libc::SOCK_STREAM | libc::SOCK_CLOEXEC, 0) };
+        if fd < 0 {
+            return Err(io::Error::last_os_error().into());
+        }
+        let listener = unsafe { TcpListener::from_raw_fd(fd) };
+        if let Some(n) = opts.rcvbuf {
+            setsockopt_int(fd, libc::SOL_SOCKET, libc::SO_RCVBUF, n as i32)?;
+        }
+        if let Some(n) = opts.sndbuf {
+            setsockopt_int(fd, libc::SOL_SOCKET, libc::SO_SNDBUF, n as i32)?;
+        }
+        let sa = sockaddr_v4(SocketAddr::from(([127, 0, 0, 1], 0)))?;
+        let r = unsafe {
+            libc::bind(
+                fd,
+                &sa as *const _ as *const libc::sockaddr,
+                std::mem::size_of::<libc::sockaddr_in>() as libc::socklen_t,
+            )
+        };
+        if r != 0 {
+            return Err(io::Error::last_os_error().into());
+        }
+        if unsafe { libc::listen(fd, 1024) } != 0 {
+            return Err(io::Error::last_os_error().into());
+        }
+        listener.set_nonblocking(true)?;
+        let addr = listener.local_addr()?;
+        Ok(MockBackend { addr, listener, nodelay: opts.nodelay })
+    }
+
+    /// Next connection, within `timeout` (`Err(Timeout)` otherwise).
+    pub fn accept(&self, timeout: Duration) -> RigResult<RawConn> {
+        let until = Instant::now() + timeout;
+        loop {
+            match self.listener.accept() {
+                Ok((stream, _)) => {
+                    stream.set_nonblocking(false)?;
+                    if self.nodelay {
+                        stream.set_nodelay(true)?;
+                    }
+                    return Ok(RawConn::from_stream(stream));
+                }
+                Err(e) if e.kind() == io::ErrorKind::WouldBlock => {}
+                Err(e) if e.kind() == io::ErrorKind::Interrupted => continue,
+                // a connection that was reset while in the queue
+                Err(e) if e.kind() == io::ErrorKind::ConnectionAborted => continue,
+                Err(e) => return Err(e.into()),
+            }
+            let left = until.saturating_duration_since(Instant::now());
+            if left.is_zero() {
+                return Err(RigError::Timeout(format!("accept on {}", self.addr)));
+            }
+            poll_fd(self.listener.as_raw_fd(), libc::POLLIN, left)?;
+        }
+    }
+
+    /// A connection already waiting, if any.
+    pub fn try_accept(&self) -> Option<RawConn> {
+        self.accept(Duration::ZERO).ok()
+    }
+
+    /// Stop listening (connections already accepted live on).
+    pub fn close(self) {
+        drop(self)
+    }
+
+    /// Serve in a thread: accept `scripts.len()` connections (each within
+    /// `accept_timeout` of the previous one), run script *i* on connection *i*
+    /// (each on its own thread, so connections may overlap), return the
+    /// records in accept order. Connections never accepted are missing from
+    /// the result.
+    pub fn serve(
+        self,
+        scripts: Vec<Vec<Step>>,
+        accept_timeout: Duration,
+        step_timeout: Duration,
+    ) -> JoinHandle<Vec<(RawConn, ScriptEnd)>> {
+        thread::spawn(move || {
+            let mut handles = vec![];
+            for script in scripts {
+                match self.accept(accept_timeout) {
+                    Ok(conn) => handles.push(spawn_script(conn, script, step_timeout)),
+                    Err(_) => break,
+                }
+            }
+            handles.into_iter().filter_map(|h| h.join().ok()).collect()
+        })
+    }
+}
+
+// ---------------------------------------------------------------- scripts
+
+/// One action of a scripted peer. Reads append to `conn.received`.
+#[derive(Debug, Clone)]
+pub enum Step {
+    /// read until the pattern occurs in everything received so far
+    ReadUntil(Vec<u8>),
+    /// read until `n` bytes have been received in all
+    ReadTotal(usize),
+    /// read `chunk` bytes at a time with `pause` before each read until `total`
+    /// bytes have been received in all (slow reader: back-pressure)
+    ReadPaced { chunk: usize, pause: Duration, total: usize },
+    /// read until the peer closes
+    ReadToEnd,
+    Write(Vec<u8>),
+    /// one write per chunk, `pause` in between
+    WriteChunks(Vec<Vec<u8>>, Duration),
+    /// copy every byte read back to the peer until it closes
+    EchoToEnd,
+    Pause(Duration),
+    ShutdownWrite,
+    /// orderly close; ends the script
+    Close,
+    /// abortive close (RST); ends the script
+    Reset,
+}
+
+/// How a script ended.
+#[derive(Debug, Clone, PartialEq, Eq)]
+pub enum ScriptEnd {
+    /// every step ran; the connection is still open unless the last step closed it
+    Completed,
+    /// step `index` did not finish: `why`
+    Stopped { index: usize, why: String },
+}
+
+/// Run `steps` on `conn`; each step gets `step_timeout`. Returns `(conn, end)`:
+/// after `Close`/`Reset` the returned connection is a closed shell that still
+/// carries `received`/`sent`.
+pub fn run_script(
+    mut conn: RawConn,
+    steps: &[Step],
+    step_timeout: Duration,
+) -> (RawConn, ScriptEnd) {
+    fn stopped(index: usize, why: impl std::fmt::Debug) -> ScriptEnd {
+        ScriptEnd::Stopped { index, why: format!("{why:?}") }
+    }
+    for (index, step) in steps.iter().enumerate() {
+        match step {
+            Step::ReadUntil(p) => match conn.read_until(p, step_timeout) {
+                ReadEnd::Done => {}
+                e => return (conn, stopped(index, e)),
+            },
+            Step::ReadTotal(n) => match conn.read_until_len(*n, step_timeout) {
+                ReadEnd::Done => {}
+                e => return (conn, stopped(index, e)),
+            },
+            Step::ReadPaced { chunk, pause, total } => {
+                let until = Instant::now() + step_timeout;
+                while conn.received.len() < *total {
+                    thread::sleep(*pause);
+                    let left = until.saturating_duration_since(Instant::now());
+                    if left.is_zero() {
+                        return (conn, stopped(index, ReadEnd::Timeout));
+                    }
+                    let want = (*chunk).min(*total - conn.received.len());
+                    match conn.read_some_max(want, left) {
+                        ReadEnd::Done => {}
+                        e => return (conn, stopped(index, e)),
+                    }
+                }
+            }
+            Step::ReadToEnd => match conn.read_until_closed_or(step_timeout) {
+                ReadEnd::Closed => {}
+                e => return (conn, stopped(index, e)),
+            },
+            Step::Write(data) => {
+                if let Err(e) = conn.write_all(data, step_timeout) {
+                    return (conn, stopped(index, e));
+                }
+            }
+            Step::WriteChunks(chunks, pause) => {
+                let refs: Vec<&[u8]> = chunks.iter().map(|c| c.as_slice()).collect();
+                if let Err(e) = conn.write_chunks(&refs, *pause, step_timeout) {
+                    return (conn, stopped(index, e));
+                }
+            }
+            Step::EchoToEnd => {
+                let until = Instant::now() + step_timeout;
+                loop {
+                    let left = until.saturating_duration_since(Instant::now());
+                    if left.is_zero() {
+                        return (conn, stopped(index, ReadEnd::Timeout));
+                    }
+                    let before = conn.received.len();
+                    match conn.read_some(left) {
+                        ReadEnd::Done => {
+                            let data = conn.received[before..].to_vec();
+                            let left = until.saturating_duration_since(Instant::now());
+                            if let Err(e) = conn.write_all(&data, left) {
+                                return (conn, stopped(index, e));
+                            }
+                        }
+                        ReadEnd::Closed => break,
+                        e => return (conn, stopped(index, e)),
+                    }
+                }
+            }
+            Step::Pause(d) => thread::sleep(*d),
+            Step::ShutdownWrite => conn.shutdown_write(),
+            Step::Close | Step::Reset => {
+                let shell = RawConn {
+                    stream: dead_stream(),
+                    received: std::mem::take(&mut conn.received),
+                    parsed: conn.parsed,
+                    sent: conn.sent,
+                    eof: conn.eof,
+                    error: conn.error,
+                };
+                if matches!(step, Step::Reset) {
+                    conn.reset();
+                } else {
+                    conn.close();
+                }
+                let end = if index + 1 == steps.len() {
+                    ScriptEnd::Completed
+                } else {
+                    stopped(index, "closed before the end of the script")
+                };
+                return (shell, end);
+            }
+        }
+    }
+    (conn, ScriptEnd::Completed)
+}
+
+/// An unconnected socket standing in for a closed connection.
+fn dead_stream() -> TcpStream {
+    let fd = unsafe { libc::socket(libc::AF_INET, libc::SOCK_STREAM | libc::SOCK_CLOEXEC, 0) };
+    unsafe { TcpStream::from_raw_fd(fd) }
+}
+
+/// `run_script` in a thread.
+pub fn spawn_script(
+    conn: RawConn,
+    steps: Vec<Step>,
+    step_timeout: Duration,
+) -> JoinHandle<(RawConn, ScriptEnd)> {
+    thread::spawn(move || run_script(conn, &steps, step_timeout))
+}
+
+// -------------------------------------------------------------------- UDP
+
+/// A datagram peer on `127.0.0.1:<kernel-chosen port>` (client or backend).
+#[derive(Debug)]
+pub struct UdpPeer {
+    pub addr: SocketAddr,
+    pub socket: UdpSocket,
+    /// every datagram received so far, with its source
+    pub received: Vec<(SocketAddr, Vec<u8>)>,
+}
+
+impl UdpPeer {
+    pub fn bind() -> RigResult<UdpPeer> {
+        let socket = UdpSocket::bind(("127.0.0.1", 0))?;
+        let addr = socket.local_addr()?;
+        Ok(UdpPeer { addr, socket, received: vec![] })
+    }
+
+    pub fn send_to(&self, data: &[u8], to: SocketAddr) -> RigResult<usize> {
+        Ok(self.socket.send_to(data, to)?)
+    }
+
+    /// Next datagram within `timeout` (also appended to `received`).
+    pub fn recv(&mut self, timeout: Duration) -> RigResult<(SocketAddr, Vec<u8>)> {
+        let rev = poll_fd(self.socket.as_raw_fd(), libc::POLLIN, timeout)?;
+        if rev == 0 {
+            return Err(RigError::Timeout("udp recv".into()));
+        }
+        let mut buf = vec![0u8; 65536];
+        let (n, from) = self.socket.recv_from(&mut buf)?;
+        buf.truncate(n);
+        self.received.push((from, buf.clone()));
+        Ok((from, buf))
+    }
+}
+
+// ------------------------------------------------------- minimal H1 reader
+
+/// One HTTP/1.x message as read off a [`RawConn`].
+#[derive(Debug, Clone, PartialEq, Eq)]
+pub struct HttpMessage {
+    /// request line or status line (without CRLF)
+    pub start_line: String,
+    /// header fields in wire order, names as sent
+    pub headers: Vec<(String, String)>,
+    /// body with the transfer coding removed
+    pub body: Vec<u8>,
+    /// number of bytes of `conn.received` this message occupied
+    pub wire_len: usize,
+    /// the body was delimited by the end of the connection
+    pub until_close: bool,
+}
+
+impl HttpMessage {
+    pub fn header(&self, name: &str) -> Option<&str> {
+        self.headers
+            .iter()
+            .find(|(n, _)| n.eq_ignore_ascii_case(name))
+            .map(|(_, v)| v.as_str())
+    }
+
+    /// the status code of a response start line
+    pub fn status(&self) -> Option<u16> {
+        self.start_line.split(' ').nth(1).and_then(|s| s.parse().ok())
+    }
+}
+
+/// Read one HTTP/1.x message starting at `conn.received[conn.parsed..]`
+/// (reading more as needed) and advance `conn.parsed` past it; `received`
+/// itself is left intact (it is the record of the connection). Framing: `Content-Length`,
+/// `Transfer-Encoding: chunked` (trailers dropped), else: requests and
+/// 1xx/204/304 responses have no body, other responses run to the end of the
+/// connection. `HEAD` responses are the caller's business (`Content-Length`
+/// without a body would time out here). Deliberately small and strict: it is
+/// a test peer, not the reference reader of C03.
+pub fn read_http_message(conn: &mut RawConn, timeout: Duration) -> RigResult<HttpMessage> {
+    let until = Instant::now() + timeout;
+    let left = |until: Instant| until.saturating_duration_since(Instant::now());
+    let base = conn.parsed;
+    match conn.read_while(|buf| find(&buf[base..], b"\r\n\r\n").is_some(), left(until)) {
+        ReadEnd::Done => {}
+        e => {
+            return Err(RigError::Io(format!(
+                "http head: {e:?} after {} bytes",
+                conn.received.len() - base
+            )))
+        }
+    }
+    let head_end = base + find(&conn.received[base..], b"\r\n\r\n").unwrap() + 4;
+    let head = String::from_utf8_lossy(&conn.received[base..head_end - 4]).into_owned();
+    let mut lines = head.split("\r\n");
+    let start_line = lines.next().unwrap_or("").to_string();
+    let mut headers = vec![];
+    for l in lines {
+        match l.split_once(':') {
+            Some((n, v)) => headers.push((n.to_string(), v.trim().to_string())),
+            None => return Err(RigError::Io(format!("http head: bad field line {l:?}"))),
+        }
+    }
+    let get = |name: &str| {
+        headers
+            .iter()
+            .find(|(n, _)| n.eq_ignore_ascii_case(name))
+            .map(|(_, v): &(String, String)| v.clone())
+    };
+    let is_response = start_line.starts_with("HTTP/");
+    let status: u16 = if is_response {
+        start_line.split(' ').nth(1).and_then(|s| s.parse().ok()).unwrap_or(0)
+    } else {
+        0
+    };
+    let chunked = get("transfer-encoding")
+        .map(|v| v.to_ascii_lowercase().split(',').any(|t| t.trim() == "chunked"))
+        .unwrap_or(false);
+    let mut body = vec![];
+    let mut wire_len = head_end;
+    let mut until_close = false;
+    if is_response && (status / 100 == 1 || status == 204 || status == 304) {
+        // no body
+    } else if chunked {
+        let mut pos = head_end;
+        loop {
+            // chunk-size line
+            let line_end = loop {
+                if let Some(i) = find(&conn.received[pos..], b"\r\n") {
+                    break pos + i;
+                }
+                match conn.read_some(left(until)) {
+                    ReadEnd::Done => {}
+                    e => return Err(RigError::Io(format!("http chunk size: {e:?}"))),
+                }
+            };
+            let line = String::from_utf8_lossy(&conn.received[pos..line_end]).into_owned();
+            let size_str = line.split(';').next().unwrap_or("").trim();
+            let size = usize::from_str_radix(size_str, 16)
+                .map_err(|_| RigError::Io(format!("http chunk size {line:?}")))?;
+            pos = line_end + 2;
+            if size == 0 {
+                // trailers up to the empty line
+                loop {
+                    let e = loop {
+                        if let Some(i) = find(&conn.received[pos..], b"\r\n") {
+                            break pos + i;
+                        }
+                        match conn.read_some(left(until)) {
+                            ReadEnd::Done => {}
+                            e => return Err(RigError::Io(format!("http trailers: {e:?}"))),
+                        }
+                    };
+                    let empty = e == pos;
+                    pos = e + 2;
+                    if empty {
+                        break;
+                    }
+                }
+                break;
+            }
+            match conn.read_until_len(pos + size + 2, left(until)) {
+                ReadEnd::Done => {}
+                e => return Err(RigError::Io(format!("http chunk data: {e:?}"))),
+            }
+            body.extend_from_slice(&conn.received[pos..pos + size]);
+            if &conn.received[pos + size..pos + size + 2] != b"\r\n" {
+                return Err(RigError::Io("http chunk: missing CRLF after data".into()));
+            }
+            pos += size + 2;
+        }
+        wire_len = pos;
+    } else if let Some(cl) = get("content-length") {
+        let n: usize = cl
+            .trim()
+            .parse()
+            .map_err(|_| RigError::Io(format!("http content-length {cl:?}")))?;
+        match conn.read_until_len(head_end + n, left(until)) {
+            ReadEnd::Done => {}
+            e => {
+                return Err(RigError::Io(format!(
+                    "http body: {e:?} after {} of {n} bytes",
+                    conn.received.len() - head_end
+                )))
+            }
+        }
+        body.extend_from_slice(&conn.received[head_end..head_end + n]);
+        wire_len = head_end + n;
+    } else if is_response {
+        match conn.read_until_closed_or(left(until)) {
+            ReadEnd::Closed | ReadEnd::Reset => {}
+            e => return Err(RigError::Io(format!("http body until close: {e:?}"))),
+        }
+        body.extend_from_slice(&conn.received[head_end..]);
+        wire_len = conn.received.len();
+        until_close = true;
+    }
+    conn.parsed = wire_len;
+    Ok(HttpMessage { start_line, headers, body, wire_len: wire_len - base, until_close })
+}
+
+// ------------------------------------------------------------- TLS client
+
+/// Accepts any server certificate (the repository's test certificates are
+/// expired and self-signed); signatures are still checked by the provider.
+#[derive(Debug)]
+struct AcceptAnyCert(Arc<rustls::crypto::CryptoProvider>);
+
+impl rustls::client::danger::ServerCertVerifier for AcceptAnyCert {
+    fn verify_server_cert(
+        &self,
+        _end_entity: &rustls::pki_types::CertificateDer<'_>,
+        _intermediates: &[rustls::pki_types::CertificateDer<'_>],
+        _server_name: &rustls::pki_types::ServerName<'_>,
+        _ocsp_response: &[u8],
+        _now: rustls::pki_types::UnixTime,
+    ) -> Result<rustls::client::danger::ServerCertVerified, rustls::Error> {
+        Ok(rustls::client::danger::ServerCertVerified::assertion())
+    }
+    fn verify_tls12_signature(
+        &self,
+        message: &[u8],
+        cert: &rustls::pki_types::CertificateDer<'_>,
+        dss: &rustls::DigitallySignedStruct,
+    ) -> Result<rustls::client::danger::HandshakeSignatureValid, rustls::Error> {
+        rustls::crypto::verify_tls12_signature(
+            message,
+            cert,
+            dss,
+            &self.0.signature_verification_algorithms,
+        )
+    }
+    fn verify_tls13_signature(
+        &self,
+        message: &[u8],
+        cert: &rustls::pki_types::CertificateDer<'_>,
+        dss: &rustls::DigitallySignedStruct,
+    ) -> Result<rustls::client::danger::HandshakeSignatureValid, rustls::Error> {
+        rustls::crypto::verify_tls13_signature(
+            message,
+            cert,
+            dss,
+            &self.0.signature_verification_algorithms,
+        )
+    }
+    fn supported_verify_schemes(&self) -> Vec<rustls::SignatureScheme> {
+        self.0.signature_verification_algorithms.supported_schemes()
+    }
+}
+
+/// A TLS client stream over a fresh TCP connection (`Read + Write`).
+pub type TlsStream = rustls::StreamOwned<rustls::ClientConnection, TcpStream>;
+
+/// Connect to an HTTPS listener and complete the handshake (ring provider,
+/// TLS 1.2/1.3, any certificate accepted, SNI `sni`, ALPN offers `alpn` e.g.
+/// `&["h2"]` or `&["http/1.1"]`). `io_timeout` becomes the socket's read and
+/// write timeout, so no later `read`/`write` on the stream can block longer
+/// than that. The negotiated protocol is `stream.conn.alpn_protocol()`.
+pub fn tls_connect(
+    addr: SocketAddr,
+    sni: &str,
+    alpn: &[&str],
+    io_timeout: Duration,
+) -> RigResult<TlsStream> {
+    let provider = Arc::new(rustls::crypto::ring::default_provider());
+    let mut cfg = rustls::ClientConfig::builder_with_provider(provider.clone())
+        .with_safe_default_protocol_versions()
+        .map_err(|e| RigError::Setup(format!("tls versions: {e}")))?
+        .dangerous()
+        .with_custom_certificate_verifier(Arc::new(AcceptAnyCert(provider)))
+        .with_no_client_auth();
+    cfg.alpn_protocols = alpn.iter().map(|p| p.as_bytes().to_vec()).collect();
+    let name = rustls::pki_types::ServerName::try_from(sni.to_string())
+        .map_err(|e| RigError::Setup(format!("sni {sni:?}: {e}")))?;
+    let mut conn = rustls::ClientConnection::new(Arc::new(cfg), name)
+        .map_err(|e| RigError::Setup(format!("tls client: {e}")))?;
+    let tcp = RawConn::connect(addr)?;
+    let mut stream = tcp.stream;
+    stream.set_read_timeout(Some(io_timeout))?;
+    stream.set_write_timeout(Some(io_timeout))?;
+    while conn.is_handshaking() {
+        conn.complete_io(&mut stream)
+            .map_err(|e| RigError::Io(format!("tls handshake: {:?}: {e}", e.kind())))?;
+    }
+    Ok(rustls::StreamOwned::new(conn, stream))
+}
